@@ -54,6 +54,7 @@ const probeDest = 6
 
 func newFarm(seed string, o hist.FarmOpts) (*hist.Farm, error) {
 	p := hist.PrepareFarmParams(hist.FarmParams(seed), o)
+	p.PropVotingDL = 60 // the farm's "vote" proposal stays in its voting period while the inputs run
 	w, err := hist.NewWorld(p, []sim.Role{{ValIdx: 0, IsWitness: true}})
 	if err != nil {
 		return nil, err
